@@ -134,7 +134,8 @@ def run(ctx):
             for q in range(npts):
                 P_d = float(np.exp(rng.uniform(np.log(gen.conv(ps["P_min"], ps["P_unit"], "d")) + 1e-6,
                                                np.log(gen.conv(ps["P_max"], ps["P_unit"], "d")) - 1e-6)))
-                e_ = float(rng.uniform(0.01, 0.9))
+                # "for any parameter values": one point in five lies in the high-eccentricity corner (up to 0.998)
+                e_ = float(rng.uniform(0.01, 0.9)) if rng.random() < 0.8 else float(1 - 10 ** rng.uniform(-2.7, -1))
                 om, M0 = float(rng.uniform(-3.1, 3.1)), float(rng.uniform(-3.1, 3.1))
                 s_du = float(10 ** rng.uniform(-2, 0.5) * pb.dspec["err_scale_kms"] * gen.conv(1, "km/s", pb.du)) if sk == "sampled" \
                     else gen.conv(ps["s"]["value"], ps["s"]["unit"], pb.du)
